@@ -1,0 +1,17 @@
+//go:build verif
+
+package sourcerunner
+
+import "time"
+
+// Accessors for the verification harness (/verif, property C04). Compiled only
+// with -tags verif.
+
+// VerifSetWatermarkTicks replaces the 200ms wall-clock watermark ticker by a
+// channel the harness sends ticks on. It must be called on the goroutine of
+// processEvents (the harness calls it from SourceReader.AssignSplits, which
+// processEvents invokes), so the field is never accessed concurrently.
+func (r *SourceRunner) VerifSetWatermarkTicks(ticks <-chan time.Time) {
+	r.watermarkTicker.Stop()
+	r.watermarkTicker = &time.Ticker{C: ticks}
+}
